@@ -132,7 +132,7 @@ class Builder:
         cmd = parts[0]
         if cmd == "source":
             self.add_source(parts[1], parts[2])
-        elif cmd in ("default-tags", "tags", "verus-flags", "rustc-flags"):
+        elif cmd in ("default-tags", "tags", "verus-flags", "rustc-flags", "table-hook", "main-hook", "compile-run"):
             pass  # read by vx.unit.unit_tags
         elif cmd == "include":
             ip = os.path.normpath(os.path.join(self.unit_dir, parts[1]))
@@ -200,6 +200,8 @@ class Builder:
             elif p[0] == "replace":
                 mm = re.match(r"`(.*?)`\s*=>\s*`(.*?)`\s*$", p[1])
                 o.setdefault("replace", []).append((mm.group(1), mm.group(2)))
+            elif p[0] == "external_body_consts":
+                o["external_body_consts"] = p[1].split()
             elif p[0] == "noderive":
                 o["noderive"] = True
             elif p[0] == "derive":
@@ -306,6 +308,10 @@ class Builder:
             self.emit(gap, "repo", file=rel, line=rs.line_of(src, pos))
             pos = mem.end
             if mkw != "fn":
+                if name in o.get("external_body_consts", []):
+                    # large table constants enter Verus as opaque values (the verified checker inspects them at run time)
+                    self.emit("#[verifier::external_body] ", "unit")
+                    self.count("external_body_const")
                 self.emit_with_edits(rel, src, mem.start, mem.end, [], fn=None)
                 continue
             if (o["only"] is not None and name not in o["only"]) or name in o["drop"]:
@@ -635,6 +641,54 @@ class Builder:
                     for mm in re.finditer(r"(?<![A-Za-z0-9_.])" + re.escape(recv) + r"\s*\.\s*is_empty\s*\(", m[a:b]):
                         edits.append(Edit(a + mm.start(), a + mm.end(), [Seg("%s.vx_is_empty(" % recv, "repo", fn=qual)]))
                         self.count("R5")
+            if rule[0] == "R5str":
+                # str receivers listed by the unit: len / slicing / byte access -> trusted VxStr methods
+                for mm in re.finditer(r"\.\s*(rfind|contains)\s*\(\s*(')?", m[a:b]):
+                    name = "vx_rfind_char" if mm.group(1) == "rfind" else "vx_contains"
+                    edits.append(Edit(a + mm.start(), a + mm.start(1) + len(mm.group(1)), [Seg("." + name, "repo", fn=qual)]))
+                    self.count("R5")
+                for recv in rule[1:]:
+                    rx = r"(&\s*)?(?<![A-Za-z0-9_:.])" + re.escape(recv) + r"(?![A-Za-z0-9_])"
+                    for mm in re.finditer(rx + r"\s*\.\s*len\s*\(", m[a:b]):
+                        st = a + mm.start() + (len(mm.group(1)) if mm.group(1) else 0)
+                        edits.append(Edit(st, a + mm.end(), [Seg("%s.vx_len(" % recv, "repo", fn=qual)]))
+                        self.count("R5")
+                    for mm in re.finditer(rx + r"\s*\.\s*as_bytes\s*\(\s*\)\s*\[", m[a:b]):
+                        st = a + mm.start() + (len(mm.group(1)) if mm.group(1) else 0)
+                        cb = rs.match_close(m, a + mm.end() - 1)
+                        edits.append(Edit(st, a + mm.end(), [Seg("%s.vx_byte(" % recv, "repo", fn=qual)]))
+                        edits.append(Edit(cb, cb + 1, [Seg(")", "repo", fn=qual)]))
+                        self.count("R5")
+                    for mm in re.finditer(rx + r"\s*\[", m[a:b]):
+                        st = a + mm.start()
+                        ob = a + mm.end() - 1
+                        first = True
+                        while True:
+                            cb = rs.match_close(m, ob)
+                            inner = m[ob + 1:cb].strip()
+                            if inner.startswith(".."):
+                                k = ob + 1 + m[ob + 1:cb].index("..") + 2
+                                rep = ".vx_to("
+                                edits.append(Edit(ob, k, [Seg((recv if first else "") + rep, "repo", fn=qual)] if not first else
+                                                  [Seg(recv + rep, "repo", fn=qual)]))
+                            else:
+                                edits.append(Edit(ob, ob + 1, [Seg((recv if first else "") + ".vx_from(", "repo", fn=qual)]))
+                            edits.append(Edit(cb, cb + 1, [Seg(")", "repo", fn=qual)]))
+                            if first:
+                                # drop the receiver text itself (re-emitted above) and a leading `&`
+                                edits.append(Edit(st, ob, []))
+                            first = False
+                            self.count("R5")
+                            k2 = cb + 1
+                            if k2 < b and m[k2] == "[":
+                                ob = k2
+                                continue
+                            break
+            if rule[0] == "R5lt":
+                x, y = rule[1], rule[2]
+                for mm in re.finditer(r"(?<![A-Za-z0-9_.])" + re.escape(x) + r"\s*<\s*" + re.escape(y) + r"(?![A-Za-z0-9_])", m[a:b]):
+                    edits.append(Edit(a + mm.start(), a + mm.end(), [Seg("%s.vx_lt(%s)" % (x, y), "repo", fn=qual)]))
+                    self.count("R5")
             if rule[0] == "R6":
                 # Option<Vec<T>>::as_deref() -> trusted wrapper method (std's version is Deref-generic)
                 for mm in re.finditer(r"\.\s*as_deref\s*\(", m[a:b]):
